@@ -36,6 +36,11 @@ def shards(tier, seed):
         out.append(("history_%d" % i, dict(kind="history", count=60 if q else 600)))
     out.append(("toy", dict(kind="toy", ncurves=3 if q else 10)))
     out.append(("infinity", dict(kind="infinity")))
+    # the same with assert statements stripped (python -O)
+    out.append(("child_pairs_NIST256p", dict(kind="pairs", cname="NIST256p", npairs=3, lz=False, _pyopt="opt")))
+    out.append(("child_pairs_SECP112r2", dict(kind="pairs", cname="SECP112r2", npairs=3, lz=False, _pyopt="opt+hashseed")))
+    out.append(("child_loaders", dict(kind="loaders", cnames=["BRAINPOOLP160r1", "SECP112r2"], _pyopt="opt")))
+    out.append(("child_toy", dict(kind="toy", ncurves=2, _pyopt="opt")))
     return out
 
 
@@ -152,6 +157,19 @@ def run(ctx, name, kind, **kw):
             ctx.check(a == b, "two_sides_disagree", "%s dA=%d dB=%d: sides disagree %r %r" % (c.name, dA, dB, a, b), dict(curve=c.name, dA=dA, dB=dB))
             pk = eA.get_public_key()
             ctx.check(pk.to_string() == skA.verifying_key.to_string(), "get_public_key_wrong", "%s get_public_key" % c.name, dict(curve=c.name))
+            # the remote key as an OBJECT whose point is in another (legal) representation: unscaled Jacobian (what key recovery, point
+            # addition or tweaking leave behind), a legacy affine Point, a doubly negated point
+            QB = ecdsa_ref.pubkey(dom, dB)
+            from vf.lib import Point as _Pt
+            for rep_name, ptobj in (("unscaled", lib.mk_jac(c.curve, QB, rng.randrange(2, dom.p), n)), ("legacy", _Pt(c.curve, QB[0], QB[1], n)),
+                                    ("neg_neg", -(-lib.mk_jac(c.curve, QB, rng.randrange(2, dom.p), n))), ("unscaled_no_order", lib.mk_jac(c.curve, QB, rng.randrange(2, dom.p), None))):
+                try:
+                    vkB = ecdsa.VerifyingKey.from_public_point(ptobj, c)
+                    eA2 = ECDH(c, skA, vkB) if rng.random() < 0.5 else (lambda e_: (e_.load_received_public_key(vkB), e_)[1])(ECDH(c, skA))
+                except Exception as ex:
+                    ctx.violation("valid_exchange_raises", "%s: remote key object (%s point) refused: %s: %s" % (c.name, rep_name, type(ex).__name__, ex), dict(curve=c.name, dA=dA, dB=dB))
+                    continue
+                secret_of(ctx, eA2, want, "exchange.remote_object", "%s|%s" % (c.name, rep_name), "%s dA=%d dB=%d remote key object with %s point" % (c.name, dA, dB, rep_name), c)
     elif kind == "loaders":
         for cname in kw["cnames"]:
             c = lib.BY_NAME[cname]
@@ -276,22 +294,56 @@ def run(ctx, name, kind, **kw):
             G2 = dom.curve.mul(rng.randrange(2, dom.n), dom.G)
             custom = _c.Curve(cname + "_altG", c.curve, PointJacobi(c.curve, G2[0], G2[1], 1, dom.n, generator=True), (1, 3, 132, 0, 250))
             skN = ecdsa.SigningKey.from_secret_exponent(rng.randrange(1, dom.n), c)
-            skC = ecdsa.SigningKey.from_secret_exponent(rng.randrange(1, dom.n), custom)
-            for what, make in (("ctor named+custom_pub", lambda: ECDH(c, skN, skC.verifying_key)), ("ctor custom+named_pub", lambda: ECDH(custom, skC, skN.verifying_key)),
-                               ("ctor named curve, custom keys", lambda: ECDH(c, skC, skC.verifying_key)),
-                               ("load custom pub into named", lambda: (lambda e: (e.load_private_key(skN), e.load_received_public_key(skC.verifying_key), e)[2])(ECDH(c))),
-                               ("set_curve(custom) after named keys", lambda: (lambda e: (e.set_curve(custom), e)[1])(ECDH(c, skN, skN.verifying_key)))):
-                ctx.case("refuse.curve_mismatch", key="%s|custom_generator|%s" % (cname, what))
+            # ... and so is a curve over the same field whose coefficient differs from the named one by a multiple of 2^61-1 (equal CPython
+            # hashes of the parameters): "the same curve" must mean equal parameters, however they are compared
+            from vf.ref import ec as _ec
+            M61 = (1 << 61) - 1
+            variants = [("another base point", custom)]
+            if dom.p > 1 << 70:
+                for tag in ("b", "a"):
+                    k61 = rng.randrange(1, 1 << 8) * M61
+                    a2, b2 = (dom.curve.a, (dom.curve.b + k61) % dom.p) if tag == "b" else ((dom.curve.a + k61) % dom.p, dom.curve.b)
+                    if tag == "b" and dom.curve.b + k61 >= dom.p or tag == "a" and dom.curve.a + k61 >= dom.p:
+                        a2, b2 = (dom.curve.a, dom.curve.b - k61) if tag == "b" else (dom.curve.a - k61, dom.curve.b)
+                        if min(a2, b2) < 0:
+                            continue
+                    cv2 = _ec.Curve(dom.p, a2, b2)
+                    if not cv2.nonsingular():
+                        continue
+                    while True:
+                        pts2 = cv2.lift_x(rng.randrange(dom.p))
+                        if pts2 and pts2[0][1]:
+                            break
+                    cfp2 = lib.CurveFp(dom.p, a2, b2, 1)
+                    variants.append(("coefficient %s shifted by a multiple of 2^61-1" % tag,
+                                     _c.Curve(cname + "_alias_" + tag, cfp2, PointJacobi(cfp2, pts2[0][0], pts2[0][1], 1, dom.n, generator=True), (1, 3, 132, 0, 249))))
+                    ctx.count("hash_alias_curves")
+                    # the same, declared with the NAMED curve's base-point coordinates (everything equal but the coefficient)
+                    variants.append(("coefficient %s shifted by a multiple of 2^61-1, base point coordinates of the named curve" % tag,
+                                     _c.Curve(cname + "_alias2_" + tag, cfp2, PointJacobi(cfp2, dom.G[0], dom.G[1], 1, dom.n, generator=True), (1, 3, 132, 0, 248))))
+            for vdesc, custom in variants:
                 try:
-                    e = make()
-                    got = e.generate_sharedsecret()
-                    ctx.violation("refusal_missing:InvalidCurveError", "%s: %s: keys of the named curve and of a custom curve with another base point were mixed, secret %x returned" % (cname, what, got),
-                                  dict(curve=cname, what=what))
-                except InvalidCurveError:
-                    pass
-                except Exception as ex:
-                    ctx.violation("wrong_refusal:InvalidCurveError", "%s: %s: raised %s" % (cname, what, type(ex).__name__), dict(curve=cname, what=what))
+                    skC = ecdsa.SigningKey.from_secret_exponent(rng.randrange(1, dom.n), custom)
+                except Exception:
+                    ctx.count("custom_curve_key_not_constructible")
+                    continue
+                for what, make in (("ctor named+custom_pub", lambda: ECDH(c, skN, skC.verifying_key)), ("ctor custom+named_pub", lambda: ECDH(custom, skC, skN.verifying_key)),
+                                   ("ctor named curve, custom keys", lambda: ECDH(c, skC, skC.verifying_key)),
+                                   ("load custom pub into named", lambda: (lambda e: (e.load_private_key(skN), e.load_received_public_key(skC.verifying_key), e)[2])(ECDH(c))),
+                                   ("set_curve(custom) after named keys", lambda: (lambda e: (e.set_curve(custom), e)[1])(ECDH(c, skN, skN.verifying_key)))):
+                    ctx.case("refuse.curve_mismatch", key="%s|custom_generator|%s" % (cname, what))
+                    try:
+                        e = make()
+                        got = e.generate_sharedsecret()
+                        ctx.violation("refusal_missing:InvalidCurveError", "%s: %s: keys of the named curve and of a custom curve (%s) were mixed, secret %x returned" % (cname, what, vdesc, got),
+                                      dict(curve=cname, what=what, variant=vdesc))
+                    except InvalidCurveError:
+                        pass
+                    except Exception as ex:
+                        ctx.violation("wrong_refusal:InvalidCurveError", "%s: %s: raised %s" % (cname, what, type(ex).__name__), dict(curve=cname, what=what))
             # and the custom curve alone works like any curve
+            custom = variants[0][1]
+            skC = ecdsa.SigningKey.from_secret_exponent(rng.randrange(1, dom.n), custom)
             skC2 = ecdsa.SigningKey.from_secret_exponent(rng.randrange(1, dom.n), custom)
             want = dom.curve.mul(int(skC.privkey.secret_multiplier) * int(skC2.privkey.secret_multiplier) % dom.n, G2)[0]
             secret_of(ctx, ECDH(custom, skC, skC2.verifying_key), want, "exchange", "%s|custom_generator" % cname, "%s custom base point exchange" % cname, custom)
